@@ -208,6 +208,7 @@ impl Scenario for ArpSc {
                     .arc(),
             );
         }
+        sched::register_machines(&machines);
         let status = sched::block_on_paused_send(async move {
             sched::start_clock();
             run_internet_with_timeout(&machines, Duration::from_millis(4000)).await
